@@ -227,10 +227,10 @@ def allAfterParse (names : List String) (f : Elem → Outcome Bool) (s : Seq) : 
 def stringIsUrl : Seq → R Bool := allAfterParse ["ValueError", "TypeError", "AttributeError"] (·.url)
 def stringIsEmail : Seq → R Bool := allAfterParse ["ValueError", "TypeError", "AttributeError"] (·.email)
 /-- `string_is_geometry`: `all(wkt.loads(v) for v in seq)` lazily, WKTReadingError / AttributeError / UnicodeEncodeError /
-TypeError caught -/
+TypeError / NotImplementedError (as repaired: nonlinear WKT) caught -/
 def stringIsGeometry (s : Seq) : R Bool :=
   -- (in the installed shapely `WKTReadingError` is an alias of `GEOSException`)
-  tryB ["WKTReadingError", "GEOSException", "AttributeError", "UnicodeEncodeError", "TypeError"] (allO (s.map (·.wkt)))
+  tryB ["WKTReadingError", "GEOSException", "AttributeError", "UnicodeEncodeError", "TypeError", "NotImplementedError"] (allO (s.map (·.wkt)))
 /-- `string_is_path`: Windows paths if all absolute as such, else POSIX paths; `all(is_absolute)`; TypeError caught -/
 def usesWindows (s : Seq) : Outcome Bool :=
   match firstRaise (s.map (·.winAbs)) with
@@ -291,7 +291,7 @@ def elemOk (x : Elem) : Bool :=
   (match x.uuid with | .raises c => c3 c | _ => true) &&
   (match x.ip with | .raises c => c3 c | _ => true) &&
   (match x.email with | .raises c => c3 c | _ => true) &&
-  (match x.wkt with | .raises c => caught ["WKTReadingError", "GEOSException", "AttributeError", "UnicodeEncodeError", "TypeError"] c | _ => true) &&
+  (match x.wkt with | .raises c => caught ["WKTReadingError", "GEOSException", "AttributeError", "UnicodeEncodeError", "TypeError", "NotImplementedError"] c | _ => true) &&
   (match x.winAbs with | .raises c => caught ["TypeError"] c | _ => true) &&
   (match x.posixAbs with | .raises c => caught ["TypeError"] c | _ => true) &&
   (match x.midnight with | .raises c => c3 c | _ => true) &&
